@@ -45,7 +45,7 @@ def cube_fn(cube):
     return f
 
 
-def make_cubes(kind, opname, N, max_expired):
+def make_cubes(kind, opname, N, max_expired, min_expired=0):
     op = steps.OPS[kind][opname]
     roots = [-1] + list(range(1, N))
     cubes = [{'root': r} for r in roots]
@@ -68,7 +68,7 @@ def make_cubes(kind, opname, N, max_expired):
                     out.append(dict(c, rl=rl, rr=rr))
         cubes = out
     if kind == 'key' and max_expired is not None and max_expired > 0 and opname not in ('clear', 'is_empty', 'is_part_of_the_tree'):
-        cubes = [dict(c, nexp=e) for c in cubes for e in range(0, max_expired + 1) if not (c['root'] < 0 and e > 0)]
+        cubes = [dict(c, nexp=e) for c in cubes for e in range(min_expired, max_expired + 1) if not (c['root'] < 0 and e > 0)]
     return cubes
 
 
@@ -92,7 +92,7 @@ def run_job(job):
 
 def expand(spec, mir, seed=0):
     """spec: dict(kind, op, N, max_expired?, growth?) -> list of jobs (one per cube)"""
-    cubes = make_cubes(spec['kind'], spec['op'], spec['N'], spec.get('max_expired'))
+    cubes = make_cubes(spec['kind'], spec['op'], spec['N'], spec.get('max_expired'), spec.get('min_expired', 0))
     if spec.get('growth'):
         cubes = [c for c in cubes if c['root'] >= 0]
     jobs = []
